@@ -120,6 +120,9 @@ func (w *World) focusGatePolicy(n *Node) func(kind string, h uint64) GateVerdict
 			return GateBlock
 		case band(failPm):
 			w.stats.Fault("spi-error-" + kind)
+			if kind == "commit" {
+				w.commitFailedN = n
+			}
 			return GateFail
 		}
 		return GatePass
